@@ -403,6 +403,9 @@ func genBoolExpr(t *rapid.T, g *gstate, depth int) *Expr {
 		case 1:
 			return eOp("or", "", a, b)
 		default:
+			if a.K == "not" {
+				return a // the grammar does not accept NOT (NOT (...))
+			}
 			return eFn("not", a)
 		}
 	}
